@@ -39,7 +39,7 @@ FINDING_TEXT = ("Algorithm() accepts even polynomials, for which match_detected 
 
 SIZES = {
     #            msgs/combo  random-sw  malformed  residues  mats  hw-runs  match-cases  workers
-    "quick":    dict(msgs=2, rnd=1500, bad=300, res=150, mats=60, hw=160, match=60, workers=16, rng=120, mut=120),
+    "quick":    dict(msgs=2, rnd=1500, bad=300, res=150, mats=60, hw=160, match=60, workers=16, rng=120, mut=100),
     "thorough": dict(msgs=12, rnd=15000, bad=3000, res=1500, mats=600, hw=1800, match=500, workers=16, rng=1200,
                      mut=1500),
 }
@@ -730,7 +730,7 @@ def run(chk):
     mseqs = []
     for i in range(cfg["mut"]):
         start = ptuple(live[rng.choice(names)]) if i % 2 == 0 else rand_params(rng, wmax=24)
-        mseqs.append(gen_mutation_sequence(rng, start, hw_share=0.2))
+        mseqs.append(gen_mutation_sequence(rng, start, hw_share=0.15))
     m_reqs = []
     for _t0, steps, at in mseqs:
         for st, cur in zip(steps, at):
